@@ -5,7 +5,7 @@
 From Coq Require Import ZArith NArith String List.
 Import ListNotations.
 From TP Require Import Base.PyVal Base.PyEq Fields.FieldAst Fields.SetChain Struct.Instance
-     Ser.Trusted Ser.TrustedProofs Ser.Fast Ser.FastProofs
+     Ser.Trusted Ser.TrustedProofs Ser.TrustedEnumProofs Ser.Fast Ser.FastProofs
      Ser.FastState Ser.FastStateProofs Ser.FastRegularProofs Ser.FastHistoryProofs.
 
 Section C10.
@@ -36,6 +36,25 @@ Section C10.
       deser_regular re_match sdeser ostore e (S n) ku [] cn (PDict kv) = Ok x ->
       trusted_cls re_match sdeser e (S n) NotNested cn (PDict kv) = Ok x.
   Proof. exact (trusted_flat re_match sdeser ostore e). Qed.
+
+  (* Characterisation (partial: the enum fragment).  For a class whose fields are primitive fields and Enum fields over
+     an enum class - looked up by member name or, with serialization_by_value, by member value -, each plain or wrapped
+     as AnyOf[T, None] / AnyOf[None, T], without defaults, and a document whose entries the regular key lookup finds
+     under the fields' own names (primitive values in the normal form of their __set__ chains, enum values truthy),
+     the trusted path - at whatever level the classifier assigned - returns exactly the instance the regular path
+     returns.  (False of the model before the repairs of _get_enum_mapping and
+     _extract_non_nonefield_from_optional in typedpy: by-value enums, AnyOf[None, Enum].) *)
+  Theorem C10_trusted_enums : forall n lv ku cn c kv doc x,
+      find_tclass e cn = Some c ->
+      doc_alist kv = Some doc ->
+      t_mapper c <> MapList ->
+      NoDup (map f_name (t_fields c)) ->
+      (forall fd, In fd (t_fields c) -> enum_field re_match c kv doc fd) ->
+      rename_doc c doc = doc ->
+      ((ku && negb (is_special (t_mapper c)) && t_additional c)%bool = true -> extras_of c kv = []) ->
+      deser_regular re_match sdeser ostore e (S n) ku [] cn (PDict kv) = Ok x ->
+      trusted_cls re_match sdeser e (S n) lv cn (PDict kv) = Ok x.
+  Proof. exact (trusted_enums re_match sdeser ostore e). Qed.
 
   (* Second clause: for a class the classifier rejects, the flag changes nothing. *)
   Theorem C10_ineligible : forall fuel ku cn d,
@@ -123,6 +142,7 @@ Section C10_history.
 End C10_history.
 
 Print Assumptions C10_trusted_partial.
+Print Assumptions C10_trusted_enums.
 Print Assumptions C10_ineligible.
 Print Assumptions C10_fast_value_partial.
 Print Assumptions C10_from_trusted.
@@ -229,6 +249,18 @@ Example C10_fast_compact_refuted :
 Proof. split; vm_compute; reflexivity. Qed.
 
 (* ------------------------------------------------------------------ non-vacuity *)
+
+(* the hypotheses of C10_trusted_enums hold of a class with a by-value Enum, Optional[Enum] and AnyOf[None, Enum]
+   field and a four-entry document: Ser/TrustedEnumProofs.v trusted_enums_nonvacuous *)
+Example C10_trusted_enums_nonvacuous :
+  doc_alist kv_e = Some doc_e /\ rename_doc cls_e doc_e = doc_e /\ NoDup (map f_name (t_fields cls_e)) /\
+  (forall fd, In fd (t_fields cls_e) -> enum_field (fun _ _ => true) cls_e kv_e doc_e fd) /\
+  is_ok (deser_regular (fun _ _ => true) (fun _ _ => Raise Unmodelled) (fun _ _ => Raise Unmodelled) [cls_e] 3 false []
+                       (s2p "C") (PDict kv_e)) = true.
+Proof.
+  destruct trusted_enums_nonvacuous as (H1 & H2 & H3 & H4 & H5).
+  split; [exact H1|]. split; [exact H2|]. split; [exact H3|]. split; [exact H4|]. rewrite H5. reflexivity.
+Qed.
 
 (* a flat class with a rename mapper-free declaration and a two-field document: all hypotheses of
    C10_trusted_partial hold and both paths return the same instance *)
